@@ -600,6 +600,7 @@ Theorem to_surface_nodes c m m' surf remove :
 Proof.
   intros W H. destruct (wf_parts m W) as [NDn _].
   unfold to_surface in H. destruct (mapM _ surf) as [groups|]; [|discriminate].
+  destruct (Nat.eqb _ 0); [discriminate|].
   assert (Hi : incl (nodes m') (nodes m)).
   { destruct (negb remove).
     - inversion H; subst; simpl. intros x Hx; exact Hx.
@@ -824,7 +825,8 @@ Theorem to_surface_self_contained c m m' surf :
 Proof.
   intros W H. destruct (wf_parts m W) as [NDn _].
   unfold to_surface in H.
-  destruct (mapM _ surf) as [groups|] eqn:G; [|discriminate]. simpl in H.
+  destruct (mapM _ surf) as [groups|] eqn:G; [|discriminate].
+  destruct (Nat.eqb _ 0); [discriminate|]. simpl in H.
   fold (all_positions surf) in H.
   set (ks := unique_nat (all_positions surf)) in *.
   destruct (select_pos ks (nodes m)) as [ns|] eqn:Sp; [|discriminate].
@@ -868,7 +870,8 @@ Theorem to_surface_nodal_by_id c m m' surf :
   surface_by_id c = true -> to_surface c m surf true = Some m' -> vars_kept (full_vars m) m'.
 Proof.
   intros Hc H. unfold to_surface in H. rewrite Hc in H.
-  destruct (mapM _ surf) as [groups|]; [|discriminate]. simpl in H.
+  destruct (mapM _ surf) as [groups|]; [|discriminate].
+  destruct (Nat.eqb _ 0); [discriminate|]. simpl in H.
   destruct (select_pos _ (nodes m)) as [ns|]; [|discriminate].
   destruct (map_nodal _ _) as [nd|] eqn:Sd; [|discriminate].
   inversion H; subst m'; clear H. unfold vars_kept, full_vars; simpl.
